@@ -1,6 +1,9 @@
 package main
 
 import (
+	"fmt"
+	"go/token"
+	"go/types"
 	"strings"
 
 	"golang.org/x/tools/go/ssa"
@@ -26,7 +29,7 @@ func ruleIDX5(c *Ctx) []Ob {
 			}
 			for _, a := range call.Common().Args {
 				cf := closureFn(a)
-				if cf == nil || c.eff(cf)&EffIdxAdd == 0 {
+				if cf == nil || c.eff(cf)&EffIdxAdd == 0 || c.eff(cf)&EffDestructive != 0 {
 					continue
 				}
 				key := c.fname(fn) + "/index build then catalog write"
@@ -306,4 +309,258 @@ func ruleOPS3(c *Ctx) []Ob {
 		}
 	}
 	return o.list
+}
+
+// ---------------------------------------------------------------- IDX6
+
+// IDX6: index maintenance is unconditional per (document, index): inside a loop
+// over indexes every iteration reaches the Add/Remove call; inside a
+// per-document callback every success return passes it.
+func ruleIDX6(c *Ctx) []Ob {
+	o := newObs(c, "IDX6")
+	for _, fn := range c.LibFuncs {
+		if c.pkgRel(fn) != "" {
+			continue
+		}
+		allCalls(fn, func(call ssa.CallInstruction) {
+			isAdd := c.isInvokeOf(call, "index", "Index", "Add")
+			isRem := c.isInvokeOf(call, "index", "Index", "Remove")
+			if !isAdd && !isRem {
+				return
+			}
+			what := "Add"
+			if isRem {
+				what = "Remove"
+			}
+			key := c.fname(fn) + "/Index." + what + " unconditional"
+			pos := relPath(c, call.Pos())
+			ab := call.Block()
+			if c.inLoop(ab) {
+				h, body := c.innermostLoop(ab)
+				if h == nil {
+					o.add(UNDECIDED, key, pos, "loop structure not understood")
+					return
+				}
+				// can an iteration complete (reach a back edge to h) without passing ab?
+				seen := map[*ssa.BasicBlock]bool{}
+				var stack []*ssa.BasicBlock
+				for _, s := range h.Succs {
+					if body[s] && s != ab {
+						stack = append(stack, s)
+					}
+				}
+				skipped := false
+				for len(stack) > 0 {
+					x := stack[len(stack)-1]
+					stack = stack[:len(stack)-1]
+					if seen[x] || !body[x] || x == ab {
+						continue
+					}
+					seen[x] = true
+					for _, s := range x.Succs {
+						if s == h {
+							skipped = true
+						}
+						stack = append(stack, s)
+					}
+				}
+				if skipped {
+					o.add(VIOLATED, key, pos, "an iteration of the loop over the indexes can complete without calling Index.%s: some (document, index) pairs get no entry / keep a stale one, while scans through that index assume exactly one entry per document (an absent field is indexed as nil)", what)
+				} else {
+					o.add(OK, key, pos, "every iteration of the loop reaches the call (or leaves the function with an error)")
+				}
+				return
+			}
+			if fn.Parent() == nil {
+				o.add(OK, key, pos, "straight-line maintenance in a named function")
+				return
+			}
+			// per-document callback: no success return without the call
+			ei := errResultIndex(fn.Signature)
+			bad := ""
+			seen := map[*ssa.BasicBlock]bool{}
+			stack := []*ssa.BasicBlock{fn.Blocks[0]}
+			for len(stack) > 0 {
+				x := stack[len(stack)-1]
+				stack = stack[:len(stack)-1]
+				if seen[x] || x == ab {
+					continue
+				}
+				seen[x] = true
+				if ret, ok := x.Instrs[len(x.Instrs)-1].(*ssa.Return); ok && ei >= 0 {
+					if rv, ok := returnedValue(ret, ei); ok && (isNilConst(rv) || !c.provablyNonNil(fn, rv, x)) {
+						bad = relPath(c, ret.Pos())
+					}
+				}
+				stack = append(stack, x.Succs...)
+			}
+			if bad != "" {
+				o.add(VIOLATED, key, pos, "the per-document callback can return success at %s without calling Index.%s: documents it skips have no entry in the index, but every scan through the index assumes one entry per document", bad, what)
+			} else {
+				o.add(OK, key, pos, "every success return of the per-document callback passes the call")
+			}
+		})
+	}
+	return o.list
+}
+
+// ---------------------------------------------------------------- PLAN7
+
+// PLAN7: the in-memory sort is elided only when the output of the index scan is
+// the requested order: exactly one sort option, on the field of the index scanned.
+func rulePLAN7(c *Ctx) []Ob {
+	o := newObs(c, "PLAN7")
+	found := false
+	for _, builder := range c.LibFuncs {
+		if c.pkgRel(builder) != "" {
+			continue
+		}
+		// the builder allocates the sort node
+		var sortAlloc *ssa.Alloc
+		for _, b := range builder.Blocks {
+			for _, in := range b.Instrs {
+				if al, ok := in.(*ssa.Alloc); ok {
+					if n, ok := al.Type().Underlying().(*types.Pointer).Elem().(*types.Named); ok && n.Obj().Pkg() != nil && n.Obj().Pkg().Path() == c.ModPath && c.nodeKind(n) == "sort" {
+						sortAlloc = al
+					}
+				}
+			}
+		}
+		if sortAlloc == nil {
+			continue
+		}
+		// the flag: a bool result of a call, tested on the way to the allocation
+		allCalls(builder, func(ci ssa.CallInstruction) {
+			call, ok := ci.(*ssa.Call)
+			if !ok {
+				return
+			}
+			F := staticCallee(call)
+			if F == nil || !c.IsLib(F) {
+				return
+			}
+			res := F.Signature.Results()
+			for bi := 0; bi < res.Len(); bi++ {
+				if b, ok := res.At(bi).Type().Underlying().(*types.Basic); !ok || b.Kind() != types.Bool {
+					continue
+				}
+				for _, ex := range resultValues(call, bi) {
+					guards := guardEdges(builder, func(cond ssa.Value, branch bool) bool { return cond == ex && !branch })
+					if !guardedBy(builder, sortAlloc.Block(), guards) {
+						continue
+					}
+					found = true
+					c.checkElision(o, F, bi)
+				}
+			}
+		})
+	}
+	if !found {
+		o.add(UNDECIDED, "elision-flag", "-", "the 'output already sorted' flag guarding the creation of the sort node was not found")
+	}
+	return o.list
+}
+
+func (c *Ctx) checkElision(o *obs, F *ssa.Function, bi int) {
+	type site struct {
+		b   *ssa.BasicBlock
+		pos string
+	}
+	var sites []site
+	undec := ""
+	var walk func(v ssa.Value, at *ssa.BasicBlock, seen map[ssa.Value]bool)
+	walk = func(v ssa.Value, at *ssa.BasicBlock, seen map[ssa.Value]bool) {
+		if seen[v] {
+			return
+		}
+		seen[v] = true
+		switch x := v.(type) {
+		case *ssa.Const:
+			if bv, ok := constBool(x); ok && bv {
+				sites = append(sites, site{at, ""})
+			}
+		case *ssa.Phi:
+			for i, e := range x.Edges {
+				walk(e, x.Block().Preds[i], seen)
+			}
+		default:
+			undec = "the flag is computed (" + describeValue(c, v) + "), not set to constants"
+		}
+	}
+	for _, ret := range returnsOf(F) {
+		rv, ok := returnedValue(ret, bi)
+		if !ok {
+			continue
+		}
+		walk(rv, ret.Block(), map[ssa.Value]bool{})
+	}
+	if undec != "" {
+		o.add(UNDECIDED, c.fname(F)+"/sort elision", relPath(c, F.Pos()), "%s", undec)
+		return
+	}
+	sortOpts := c.lookupMethod("query", "Query", "SortOptions")
+	isSortOptsCall := func(v ssa.Value) bool {
+		for _, og := range origins(v) {
+			call, ok := og.(*ssa.Call)
+			if !ok {
+				return false
+			}
+			if g := staticCallee(call); g == nil || c.declared(g) != sortOpts {
+				return false
+			}
+		}
+		return true
+	}
+	single := guardEdges(F, func(cond ssa.Value, branch bool) bool {
+		b, ok := cond.(*ssa.BinOp)
+		if !ok || (b.Op != token.EQL && b.Op != token.NEQ) {
+			return false
+		}
+		k, isK := constInt(b.Y)
+		lc, isCall := b.X.(*ssa.Call)
+		if !isK || k != 1 || !isCall {
+			return false
+		}
+		bi, isB := lc.Common().Value.(*ssa.Builtin)
+		if !isB || bi.Name() != "len" || !isSortOptsCall(lc.Common().Args[0]) {
+			return false
+		}
+		return (b.Op == token.EQL) == branch
+	})
+	sameField := guardEdges(F, func(cond ssa.Value, branch bool) bool {
+		b, ok := cond.(*ssa.BinOp)
+		if !ok || (b.Op != token.EQL && b.Op != token.NEQ) {
+			return false
+		}
+		isOptField := func(v ssa.Value) bool {
+			_, f, n := fieldLoad(v)
+			return f == "Field" && n != nil && c.libNamedIs(n, "query", "SortOption")
+		}
+		isIdxField := func(v ssa.Value) bool {
+			call, ok := v.(*ssa.Call)
+			return ok && call.Common().IsInvoke() && call.Common().Method.Name() == "Field" && call.Common().Method.Pkg() != nil && call.Common().Method.Pkg().Path() == c.ModPath+"/index"
+		}
+		if !((isOptField(b.X) && isIdxField(b.Y)) || (isOptField(b.Y) && isIdxField(b.X))) {
+			return false
+		}
+		return (b.Op == token.EQL) == branch
+	})
+	for i, s := range sites {
+		key := fmt.Sprintf("%s/sort elision #%d", c.fname(F), i+1)
+		pos := relPath(c, s.b.Instrs[len(s.b.Instrs)-1].Pos())
+		if pos == "-" {
+			pos = relPath(c, F.Pos())
+		}
+		switch {
+		case !guardedBy(F, s.b, single):
+			o.add(VIOLATED, key, pos, "the in-memory sort is elided on a path where the query is not known to have exactly one sort option: with several sort keys an index scan orders only by the first, ties come out in key order and skip/limit windows are cut from the wrong sequence")
+		case !guardedBy(F, s.b, sameField):
+			o.add(VIOLATED, key, pos, "the in-memory sort is elided without the sort field having been compared with the field of the index that is scanned")
+		default:
+			o.add(OK, key, pos, "elided only for a single sort option on the scanned index's own field")
+		}
+	}
+	if len(sites) == 0 {
+		o.add(OK, c.fname(F)+"/sort elision", relPath(c, F.Pos()), "the sort is never elided")
+	}
 }
